@@ -4,7 +4,7 @@
 # and PASS without it. Writes /verif/seeded/<ID>/<mN>/confirmed.txt.
 set -u
 ID=$1; M=$2; DEST=$3; shift 3
-W=/tmp/confirm; D=/verif/seeded/$ID/$M
+W=${W:-/tmp/confirm}; D=/verif/seeded/$ID/$M
 cd $W && git checkout -q -- . && git clean -fdq -e target
 cp $D/${DEMO:-demo.rs} $W/$DEST
 for pair in ${EXTRA:-}; do mkdir -p $(dirname $W/${pair##*=}); cp $D/${pair%%=*} $W/${pair##*=}; done
